@@ -1,6 +1,6 @@
 //! C07 - handle commands reach the audio thread exactly once; last write wins; none torn.
 //!
-//! Six generated scenario families (chosen from the tape):
+//! Seven generated scenario families (chosen from the tape; S lives in c07s.rs):
 //!  V  volume commands on four resources of one signal path (sound, effect, track, main track)
 //!  T  token commands on probe Sound / Effect / Modulator objects built on `kira::command`
 //!  P  seek commands on a static sound (audible index jumps) and seek / loop-region commands on
@@ -1036,12 +1036,59 @@ fn run_handle_race(c: &HCase) -> Result<Outcome, Failure> {
 
 // ------------------------------------------------------------------------------------------
 
+/// class labels of family S (same order as `c07s::ALL`)
+const SETTER_CLASS: [&str; 43] = [
+	"set:sound-volume",
+	"set:sound-panning",
+	"set:sound-playback-rate",
+	"set:stream-volume",
+	"set:stream-panning",
+	"set:stream-playback-rate",
+	"set:track-volume",
+	"set:track-send",
+	"set:send-track-volume",
+	"set:main-volume",
+	"set:spatial-position",
+	"set:spatialization-strength",
+	"set:spatial-track-volume",
+	"set:listener-position",
+	"set:listener-orientation",
+	"set:filter-mode",
+	"set:filter-cutoff",
+	"set:filter-resonance",
+	"set:filter-mix",
+	"set:eq-kind",
+	"set:eq-frequency",
+	"set:eq-gain",
+	"set:eq-q",
+	"set:delay-feedback",
+	"set:delay-mix",
+	"set:reverb-feedback",
+	"set:reverb-damping",
+	"set:reverb-stereo-width",
+	"set:reverb-mix",
+	"set:compressor-threshold",
+	"set:compressor-ratio",
+	"set:compressor-makeup-gain",
+	"set:compressor-mix",
+	"set:distortion-kind",
+	"set:distortion-drive",
+	"set:distortion-mix",
+	"set:panning-control",
+	"set:volume-control",
+	"set:tweener",
+	"set:lfo-amplitude",
+	"set:lfo-offset",
+	"set:lfo-frequency",
+	"set:lfo-waveform",
+];
+
 impl Property for C07 {
 	fn id(&self) -> &'static str {
 		"C07"
 	}
 	fn rule(&self) -> &'static str {
-		"each case is one of six generated scenario families run through the real manager (device rate 8192 Hz, internal buffer 1..128, callback sizes 1..250). V: volume setters with linear tweens of 0..2000 frames on four resources of one signal path (static DC sound, volume-control effect, sub-track, main track), 0..5 commands per gap with bursts on one resource, the path created before the first or a later callback with commands in the same gap; the output is compared frame by frame (1e-4) with a reference that applies the last command of each kind once at the start of the next callback. T: probe Sound / Effect / Modulator objects built on kira::command read a token reader once per on_start_processing; tokens are written 0..4 per gap, also before the probe is added (main-track effect, sub-track effect, sound on main / existing / just-created track, modulator); the log of reads must be exactly the last token of every burst, once, in the callback that follows, and on_start_processing must run once per callback from the first one. P: a static ramp sound receives bursts of seek_to / seek_by: the audible index must jump exactly once, in the first 4 frames of the next callback, by the last command's amount (3 frames slack), and never otherwise; a streaming sound receives seek and loop-region bursts while its decoder gets 0..130 steps per gap (hook H2): the indices it delivers must equal a reference transport that applies the last command of each kind at its next step. K: clock start / pause / stop / set_speed bursts against a reference clock (reported time and ticking flag after every callback) and tweener set() bursts observed through a parameter linked to it (1e-9). R: a writer thread publishes 200..20000 self-checking values through one CommandWriter while this thread polls the reader with generated spin patterns: values read are untorn, strictly newer than the previous one, and the last write is read. H: a gameplay thread plays a DC sound and raises sound and track volume monotonically while this thread runs callbacks: the output never decreases, stays in range, and ends at exactly the last written value. Non-trivial = a burst of one kind within a gap, a command while a tween is active, a command before the resource's first callback, a decoder step later than the next callback, or (R, H) reads / callbacks that really interleaved with the writes; distinct = distinct decoded choices."
+		"each case is one of seven generated scenario families run through the real manager (device rate 8192 Hz, internal buffer 1..128, callback sizes 1..250). V: volume setters with linear tweens of 0..2000 frames on four resources of one signal path (static DC sound, volume-control effect, sub-track, main track), 0..5 commands per gap with bursts on one resource, the path created before the first or a later callback with commands in the same gap; the output is compared frame by frame (1e-4) with a reference that applies the last command of each kind once at the start of the next callback. T: probe Sound / Effect / Modulator objects built on kira::command read a token reader once per on_start_processing; tokens are written 0..4 per gap, also before the probe is added (main-track effect, sub-track effect, sound on main / existing / just-created track, modulator); the log of reads must be exactly the last token of every burst, once, in the callback that follows, and on_start_processing must run once per callback from the first one. P: a static ramp sound receives bursts of seek_to / seek_by: the audible index must jump exactly once, in the first 4 frames of the next callback, by the last command's amount (3 frames slack), and never otherwise; a streaming sound receives seek and loop-region bursts while its decoder gets 0..130 steps per gap (hook H2): the indices it delivers must equal a reference transport that applies the last command of each kind at its next step. K: clock start / pause / stop / set_speed bursts against a reference clock (reported time and ticking flag after every callback) and tweener set() bursts observed through a parameter linked to it (1e-9). R: a writer thread publishes 200..20000 self-checking values through one CommandWriter while this thread polls the reader with generated spin patterns: values read are untorn, strictly newer than the previous one, and the last write is read. H: a gameplay thread plays a DC sound and raises sound and track volume monotonically while this thread runs callbacks: the output never decreases, stays in range, and ends at exactly the last written value. S: for each of 43 setters (sound / streaming sound volume, panning, playback rate; track volume and send; send-track and main volume; spatial position, strength, volume; listener position and orientation; every setter of filter, EQ, delay, reverb, compressor, distortion, panning and volume control; tweener set; LFO amplitude, offset, frequency, waveform) a scene built with value A receives the setter with B - alone or as the last of a burst, before the first or a later callback, instantly or with a tween of up to 4096 frames - and, once the tween and the effect memory have run out (0.75 s, reverb 3 s), its steady state (RMS, mean, sign changes per channel over 4096 frames; 1 %, LFO 6 %) must equal that of a scene built with B; the case counts only if the same measure tells A and B apart. Non-trivial = a burst of one kind within a gap, a command while a tween is active, a command before the resource's first callback, a decoder step later than the next callback, (R, H) reads / callbacks that really interleaved with the writes, or (S) a setter whose two values are told apart; distinct = distinct decoded choices."
 	}
 	fn assumptions(&self) -> Vec<String> {
 		vec![
@@ -1062,7 +1109,10 @@ impl Property for C07 {
 
 	fn run(&self, tape: &[u32], ctx: &mut Ctx) -> CaseResult {
 		let mut src = Src::new(tape);
-		let o = match src.weighted(&[6, 6, 3, 5, 1, 1]) {
+		let family = src.weighted(&[6, 6, 3, 5, 1, 1, 2]);
+		// (debugging aid: KVERIF_C07_FAMILY=<n> forces one family)
+		let family = std::env::var("KVERIF_C07_FAMILY").ok().and_then(|v| v.parse().ok()).unwrap_or(family);
+		let o = match family {
 			0 => {
 				let c = gen_volumes(&mut src);
 				ctx.describe(|| format!("{c:?}"));
@@ -1088,10 +1138,26 @@ impl Property for C07 {
 				ctx.describe(|| format!("{c:?}"));
 				run_raw(&c)?
 			}
-			_ => {
+			5 => {
 				let c = gen_handle_race(&mut src);
 				ctx.describe(|| format!("{c:?}"));
 				run_handle_race(&c)?
+			}
+			_ => {
+				let c = super::c07s::gen(&mut src);
+				ctx.describe(|| format!("{c:?}"));
+				let told_apart = super::c07s::run(&c)?;
+				let mut classes = vec!["setter-vs-built", SETTER_CLASS[super::c07s::ALL.iter().position(|k| *k == c.kind).unwrap_or(0)]];
+				if !c.decoys.is_empty() {
+					classes.push("burst-of-same-kind");
+				}
+				if c.pre == 0 {
+					classes.push("command-before-first-callback");
+				}
+				if told_apart {
+					classes.push("setter-vs-built:told-apart");
+				}
+				Outcome { nontrivial: told_apart, classes }
 			}
 		};
 		Ok(CaseInfo::new(&src, o.nontrivial, o.classes))
